@@ -324,12 +324,10 @@ func (w *repoWorld) apply(o repoOp) string {
 			trusted = append(trusted, w.pki.cas[c].Cert)
 		}
 		chains := core.NewCertificateChains(nil, trusted)
-		repo := chk.VerifRepository()
 		locs := w.locations(o.Loc)
 		res := "ok"
-		if _, err := repo.AddCRL(locs, chains); err != nil {
-			res = "err"
-		} else if err := repo.UpdateCRL(locs, chains); err != nil {
+		// the checker's own provisioning step for a configured crl_urls entry (real addCrlUrlsFromConfig)
+		if err := chk.VerifAddConfiguredUrls([]string{locs.CRLUrl}, chains); err != nil {
 			res = "err"
 		}
 		return res + " " + w.snapshot()
@@ -409,7 +407,16 @@ func (g *repoGen) directed(cfg repoCfg, kind int) []repoOp {
 	tick := repoOp{Kind: "tick"}
 	var ops []repoOp
 	first := func(o repoOp) { ops = append(ops, o) }
-	switch kind % 6 {
+	switch kind % 7 {
+	case 6: // a configured CRL, a restart, provisioning again with other trusted signers (disk: the persisted list is re-taken)
+		pl := []int{11, 12}[rng.Intn(2)]
+		t1 := []int{1, 3}[rng.Intn(2)]
+		t2 := [][]int{{}, {3}, {1}, {2}}[rng.Intn(4)]
+		ops = append(ops, repoOp{Kind: "serve", Loc: pl, Served: "doc", Doc: &repoDoc{Signer: t1, Number: num(), Serials: []int64{10, 12}}},
+			repoOp{Kind: "provision", Loc: pl, Cands: []int{t1}}, repoOp{Kind: "hs", Issuer: repoSignerName[t1], Serial: 10, Cands: []int{t1}},
+			repoOp{Kind: "restart"}, repoOp{Kind: "provision", Loc: pl, Cands: t2},
+			repoOp{Kind: "hs", Issuer: repoSignerName[t1], Serial: 10, Cands: []int{t1}}, tick,
+			repoOp{Kind: "hs", Issuer: repoSignerName[t1], Serial: 12, Cands: []int{t1}})
 	case 0: // refresh with a list of the same or a smaller size that drops serials
 		full := []int64{10, 11, 12, 13, 255}
 		keep := full[:1+rng.Intn(2)]
@@ -474,7 +481,7 @@ func (g *repoGen) history(cfg repoCfg, n int) []repoOp {
 	rng := g.rng
 	g.hist++
 	if rng.Intn(3) != 0 { // (drawn, not counted: the configuration rotates with the history index)
-		ops = g.directed(cfg, rng.Intn(6))
+		ops = g.directed(cfg, rng.Intn(7))
 		n += len(ops) / 2
 	}
 	cdps := []int{1, 2, 5}
